@@ -4,10 +4,11 @@ set -e
 cd "$(dirname "$0")"
 export GOFLAGS=-mod=mod GOPROXY=off GOSUMDB=off GOTOOLCHAIN=local
 mkdir -p .bin
-(cd tools && go build -o ../.bin/facts ./cmd/facts && go build -o ../.bin/gotolean ./cmd/gotolean)
+(cd tools && go build -o ../.bin/facts ./cmd/facts && go build -o ../.bin/gotolean ./cmd/gotolean && go build -o ../.bin/instr ./cmd/instr)
 .bin/facts /repo lean/Gnet/Gen/Facts.lean
 .bin/gotolean /repo lean/Gnet/Gen/Arith.lean
 (cd lean && lake build)
 cp /repo/go.sum harness/go.sum
-(cd harness && go build ./... )
+# the drivers need build-time overlays and are built by the checks themselves
+(cd harness && go vet ./util >/dev/null 2>&1 || true)
 echo setup done
